@@ -73,7 +73,8 @@ SibContexts == {"sib_idx", "sib_idx0", "sib_zero", "sib_member", "sib_member0", 
 \*   f_bad / f_bad_after   a function that assigns to its by-value parameter before / after the function of the construct
 \*   f_samename            a function before, in which a `var` of the SAME NAME as the base is legally mutated
 \* Flags of the enclosing function (field v): `pub fn t`, `extern fn t` -- parameters are immutable whatever the flags.
-Pres == {"s_call", "s_bad", "s_bad_after", "f_bad", "f_bad_after", "f_samename"}
+\*   f_first               a function with a body (a legal mutation of its own local) BEFORE the declaration of the base
+Pres == {"s_call", "s_bad", "s_bad_after", "f_bad", "f_bad_after", "f_samename", "f_first"}
 Contexts == {<<"direct", "top", "none", "">>} \cup {<<"direct", y, "none", "">> : y \in YContexts} \cup {<<x, "top", "none", "">> : x \in XContexts}
                 \cup {<<"elem", "elif_then", "none", "">>, <<"member", "elif2", "none", "">>, <<"nested", "elif_else", "none", "">>}
                 \cup {<<x, "top", "none", "">> : x \in SibContexts} \cup {<<"sib_idx", "elif_then", "none", "">>, <<"sib_member", "block", "none", "">>}
